@@ -182,3 +182,35 @@ def err_edges(fn, result_local):
                 if st.get("enum") == "core::ops::control_flow::ControlFlow":
                     out.append(cfg.switch_edge(st, variant="Break"))
     return out
+
+
+def forwarders(F, target, prefix="ucglib::build::opcode::"):
+    """{name: (fn, block of the inner call)} for small loop-free functions that hand their own parameters on to `target` once
+    (a helper folded out of several call sites, e.g. `call_callback` around VM::fcall_impl)"""
+    from .origins import Origins
+    out = {}
+    for n, fn in F.fns.items():
+        if n == target or not n.startswith(prefix) or fn.derived or "{closure" in n:
+            continue
+        cs = [(b, t) for b, t in fn.calls() if callee(t) == target]
+        if len(cs) != 1 or cfg.natural_loops(fn) or len(fn.blocks) > 60:
+            continue
+        b, t = cs[0]
+        o = Origins(fn)
+        params = [any(l[0] == "param" for l in o.at(a, b)) for a in t["args"] if "int" not in a and "str" not in a]
+        if params and sum(params) >= max(2, len(params) - 1):
+            out[n] = (fn, b)
+    return out
+
+
+def expanded_call_sites(F, CG, target):
+    """call sites of target, a site inside a forwarder replaced by the call sites of the forwarder: [(caller, block, via)]"""
+    fw = forwarders(F, target)
+    out = []
+    for n, b in CG.call_sites(target):
+        if n in fw:
+            for n2, b2 in CG.call_sites(n):
+                out.append((n2, b2, n))
+        else:
+            out.append((n, b, None))
+    return out
